@@ -382,6 +382,11 @@ def wicks(expr, rules: Rules = None, simplify_kronecker_deltas: bool = False):
     # break up any NO-objects, and evaluate commutators
     expr = expr.doit(wicks=True).expand()
 
+    # two adjacent identical operators are combined to a Pow object by sympy.
+    # The square of a fermionic operator vanishes.
+    if isinstance(expr, Pow) and isinstance(expr.base, FermionicOperator):
+        return S.Zero
+
     if isinstance(expr, Add):
         return Add(*[wicks(term, rules=rules,
                            simplify_kronecker_deltas=simplify_kronecker_deltas)
@@ -394,6 +399,9 @@ def wicks(expr, rules: Rules = None, simplify_kronecker_deltas: bool = False):
         for factor in expr.args:
             if factor.is_commutative:
                 c_part.append(factor)
+            elif isinstance(factor, Pow) and \
+                    isinstance(factor.base, FermionicOperator):
+                return S.Zero  # a_p a_p = 0
             else:
                 op_string.append(factor)
 
